@@ -5,6 +5,7 @@
 use crate::reflib::*;
 use crate::rsx;
 use yata::core::{Method, MovingAverageConstructor, PeriodType, ValueType};
+use yata::helpers::Peekable;
 use yata::methods::*;
 
 fn c09_run<M: Method<Params = PeriodType, Input = ValueType, Output = ValueType> + Clone>() {
@@ -67,5 +68,55 @@ pub fn c09_method() {
 		"Lowest" => c09_run::<Lowest>(),
 		"HighestLowestDelta" => c09_run::<HighestLowestDelta>(),
 		_ => c09_run::<Past<ValueType>>(),
+	}
+}
+
+/// C09 (peek clause): after every `next`, `peek()` returns the value that `next` just returned —
+/// also through `&T`, and without disturbing the instance (the next output is unaffected by peeking).
+fn c09_peek_run<M: Method<Params = PeriodType, Input = ValueType, Output = ValueType> + Peekable<ValueType>>() {
+	let n = rsx::param("n") as PeriodType;
+	let t = rsx::param("t") as usize;
+	let v0 = rsx::val("v0");
+	let mut a = M::new(n, &v0).unwrap();
+	let mut b = M::new(n, &v0).unwrap();
+	for i in 0..t {
+		let x = rsx::val_i("x", i);
+		let ya = a.next(&x);
+		let p = a.peek();
+		rsx::check("peek.is_last_output", rsx::bits_eq(p, ya));
+		let r = &a;
+		rsx::check("peek.through_ref", rsx::bits_eq(r.peek(), ya));
+		// b is never peeked: peeking must not change what comes next
+		let yb = b.next(&x);
+		rsx::check("peek.does_not_disturb", rsx::bits_eq(ya, yb));
+	}
+}
+
+pub fn c09_peek() {
+	let kind = rsx::param_str("kind");
+	match kind.as_str() {
+		"SMA" => c09_peek_run::<SMA>(),
+		"WMA" => c09_peek_run::<WMA>(),
+		"EMA" => c09_peek_run::<EMA>(),
+		"DMA" => c09_peek_run::<DMA>(),
+		"TMA" => c09_peek_run::<TMA>(),
+		"DEMA" => c09_peek_run::<DEMA>(),
+		"TEMA" => c09_peek_run::<TEMA>(),
+		"RMA" => c09_peek_run::<RMA>(),
+		"WSMA" => c09_peek_run::<WSMA>(),
+		"SMM" => c09_peek_run::<SMM>(),
+		"HMA" => c09_peek_run::<HMA>(),
+		"LinReg" => c09_peek_run::<LinReg>(),
+		"SWMA" => c09_peek_run::<SWMA>(),
+		"TRIMA" => c09_peek_run::<TRIMA>(),
+		"Vidya" => c09_peek_run::<Vidya>(),
+		"Integral" => c09_peek_run::<Integral>(),
+		"StDev" => c09_peek_run::<StDev>(),
+		"MeanAbsDev" => c09_peek_run::<MeanAbsDev>(),
+		"MedianAbsDev" => c09_peek_run::<MedianAbsDev>(),
+		"LinearVolatility" => c09_peek_run::<LinearVolatility>(),
+		"Highest" => c09_peek_run::<Highest>(),
+		"Lowest" => c09_peek_run::<Lowest>(),
+		_ => c09_peek_run::<HighestLowestDelta>(),
 	}
 }
